@@ -308,17 +308,12 @@ def check_collocation(ctx, orders):
                               {"sub": "collocation", "order": n, "monomial": wm, "rule": which}, "error %.3e" % worst)
 
 
-def check_rule_histories(ctx, quick):
-    """E2 over request histories: a rule lookup is a pure function of (order, adjacency) - the arrays returned for n after any earlier
-    request m (and after m, m') must be bitwise those returned for n at its first request in this process (module-level workspaces
-    and caches must not leak between orders).  Runs first, so the first sweep really is the first use."""
-    import itertools
-
+def _rule_families(quick):
     from bempp_cl.api.integration import duffy_collocation as DC
     from bempp_cl.api.integration import duffy_galerkin as D
     from bempp_cl.api.integration import gauss, triangle_gauss
 
-    families = {
+    return {
         "triangle": (lambda n: triangle_gauss.rule(n), [1, 4, 10, 11, 20] if quick else list(range(1, 21))),
         "gauss": (lambda n: gauss.rule(n), [1, 5, 12, 30] if quick else list(range(1, 31))),
         "duffy-coincident": (lambda n: D.rule(n, "coincident"), [2, 3, 5, 6] if quick else list(range(1, 9))),
@@ -327,31 +322,76 @@ def check_rule_histories(ctx, quick):
         "collocation": (lambda n: DC.duffy_rule_on_reference_triangle(n), [1, 3, 6] if quick else list(range(1, 9))),
     }
 
-    def snap(res):
-        return tuple(np.array(a, dtype=np.float64).tobytes() for a in res)
 
+def _digest(res):
+    import hashlib
+
+    h = hashlib.sha256()
+    for a in res:
+        h.update(np.ascontiguousarray(np.array(a, dtype=np.float64)).tobytes())
+    return h.hexdigest()
+
+
+def _fresh_main(fam, quick, reverse):
+    """Runs in a fresh interpreter: the rules of one family, each order requested once, ascending or descending."""
+    import json as _json
+
+    f, orders = _rule_families(bool(int(quick)))[fam]
+    out = {}
+    for n in (orders[::-1] if int(reverse) else orders):
+        out[str(n)] = _digest(f(n))
+    print("DIGESTS " + _json.dumps(out))
+
+
+def _fresh_table(fam, quick, reverse):
+    import json as _json
+    import subprocess
+    import sys
+
+    cmd = [sys.executable, "-c", "from bex.checks import c12; c12._fresh_main(%r, %d, %d)" % (fam, int(quick), int(reverse))]
+    out = subprocess.run(cmd, capture_output=True, text=True, timeout=600)
+    for line in out.stdout.splitlines():
+        if line.startswith("DIGESTS "):
+            return {int(k): v for k, v in _json.loads(line[8:]).items()}
+    raise RuntimeError("fresh interpreter failed for %s: %s" % (fam, out.stderr[-400:]))
+
+
+def check_rule_histories(ctx, quick):
+    """E2 over request histories: a rule lookup is a pure function of (order, adjacency) - the arrays returned for n after any earlier
+    requests (same family: every ordered pair / triple of orders; other families: their highest order) must be bitwise those a fresh
+    interpreter returns for n (module-level workspaces and caches must not leak between orders or adjacency types).  The fresh table
+    is computed twice, ascending and descending, in separate interpreters; the two must agree."""
+    import itertools
+
+    families = _rule_families(quick)
     for fam, (f, orders) in families.items():
-        first = {n: snap(f(n)) for n in orders}  # ascending first use
+        first = _fresh_table(fam, quick, 0)
+        first_desc = _fresh_table(fam, quick, 1)
+        if first != first_desc:
+            bad = [n for n in orders if first[n] != first_desc[n]]
+            ctx.violation("rule-history/%s" % fam, {"sub": "rule-history", "family": fam, "requests": ["fresh ascending vs descending"], "orders": bad},
+                          "in a fresh interpreter the rules for orders %s depend on whether the orders are requested ascending or descending" % bad)
         depth = 2 if quick else 3
         for hist in itertools.chain.from_iterable(itertools.product(orders, repeat=k) for k in range(1, depth + 1)):
             for m in hist[:-1]:
                 f(m)
-            got = snap(f(hist[-1]))
+            got = _digest(f(hist[-1]))
             ctx.transitions += len(hist)
             ctx.case(("rule-history", fam, hist), sub="rule-history", sample={"family": fam, "requests": list(hist)} if len(ctx.samples) < 2 and len(hist) == 2 else None)
             if got != first[hist[-1]]:
                 ctx.violation("rule-history/%s" % fam, {"sub": "rule-history", "family": fam, "requests": list(hist)},
-                              "rule for order %d requested after %s differs from the rule returned at its first request" % (hist[-1], list(hist[:-1])))
-        # interleaving with the other families (shared Gauss tables)
+                              "rule for order %d requested after %s differs from the rule a fresh interpreter returns" % (hist[-1], list(hist[:-1])))
+        # interleaving with the other families (shared Gauss tables / workspaces)
         for other, (g, oorders) in families.items():
             if other == fam:
                 continue
-            g(oorders[-1])
-            n = orders[0]
-            if snap(f(n)) != first[n]:
-                ctx.violation("rule-history/%s" % fam, {"sub": "rule-history", "family": fam, "requests": [other, n]},
-                              "rule for order %d differs after a request to %s" % (n, other))
-            ctx.transitions += 2
+            for n in orders:
+                g(oorders[-1])
+                ctx.transitions += 2
+                ctx.case(("rule-history", fam, other, n), sub="rule-history")
+                if _digest(f(n)) != first[n]:
+                    ctx.violation("rule-history/%s" % fam, {"sub": "rule-history", "family": fam, "requests": [other, n]},
+                                  "rule for order %d differs from the fresh one after a request to %s(%d)" % (n, other, oorders[-1]))
 
 
 def run(ctx):
